@@ -31,6 +31,8 @@ pub mod common;
 
 pub mod c01;
 pub mod c05;
+pub mod c06;
+pub mod c07;
 pub mod c15;
 pub mod c20;
 
@@ -38,6 +40,8 @@ pub fn get(id: &str) -> Option<PropDef> {
     match id {
         "C01" => Some(c01::def()),
         "C05" => Some(c05::def()),
+        "C06" => Some(c06::def()),
+        "C07" => Some(c07::def()),
         "C15" => Some(c15::def()),
         "C20" => Some(c20::def()),
         _ => None,
